@@ -25,7 +25,8 @@ RULE = ('mounts (5) x .Trash (absent, sticky dir, non-sticky dir, symlink->stick
         'sub-lattice (uid 0, 3 mount layouts, 4 options, fallback off/both/flag+env=0, 5 environments, 3 .Trash-uid states + the other two .Trash-uid states without options); non-trivial = a candidate was examined; distinct = '
         'R2 verdict class x outcome class x location x env x option x fallback')
 MOUNTS = {'root-only': ['/'], 'v1': ['/', '/mnt/v1'], 'home': ['/', '/home'],
-          'home+v1+v2': ['/', '/home', '/mnt/v1', '/mnt/v2'], 'nested': ['/', '/mnt/v1', '/mnt/v1/inner']}
+          'home+v1+v2': ['/', '/home', '/mnt/v1', '/mnt/v2'], 'nested': ['/', '/mnt/v1', '/mnt/v1/inner'],
+          'case-twins': ['/', '/mnt/V1', '/mnt/v1']}          # two volumes whose mount points differ in letter case only
 TOPS = ['absent', 'sticky', 'nonsticky', 'symlink', 'file']
 ALTS = ['absent', 'dir', 'file', 'link-dir', 'dangling']
 LOCS = ['home', 'other', 'nested', 'via-symlink', 'linkdir-slash', 'link-to-file-elsewhere']
@@ -87,6 +88,15 @@ def cases(tier):
             for loc in LOCS:
                 for top in ('absent', 'sticky'):
                     out.append({'m': m, 'top': top, 'tu': 0, 'alt': 'absent', 'loc': loc, 'env': 'unset', 'opt': 'td-same-slash', 'fb': 'off', 'uid': 0})
+        # the home trash lives on /mnt/V1, the file on /mnt/v1
+        for loc in ('other', 'via-symlink', 'home'):
+            for fb in ('off', 'both'):
+                for alt in ('absent', 'dir', 'file'):
+                    for tu in (0, 1):
+                        for top in TOPS:
+                            if tu and top in ('absent', 'file'):
+                                continue
+                            out.append({'m': 'case-twins', 'top': top, 'tu': tu, 'alt': alt, 'loc': loc, 'env': 'xdg-on-twin', 'opt': '-', 'fb': fb, 'uid': 0})
     return out
 
 
@@ -136,13 +146,16 @@ def run_case(c):
     uid = c['uid']
     env = {'local-link': {'HOME': '/home/u'}, 'xdg-under-link': {'HOME': '/home/u', 'XDG_DATA_HOME': '/home/u/dl/xdg'},
            'xdg': {'HOME': '/home/u', 'XDG_DATA_HOME': '/home/u/xdg'}, 'unset': {'HOME': '/home/u'},
-           'empty': {'HOME': '/home/u', 'XDG_DATA_HOME': ''}, 'nohome': {'XDG_DATA_HOME': '/home/u/xdg'}, 'none': {}}[c['env']]
+           'empty': {'HOME': '/home/u', 'XDG_DATA_HOME': ''}, 'nohome': {'XDG_DATA_HOME': '/home/u/xdg'}, 'none': {},
+           'xdg-on-twin': {'HOME': '/home/u', 'XDG_DATA_HOME': '/mnt/V1/xdg'}}[c['env']]
     if c['fb'] in ('env', 'both'):
         env['TRASH_ENABLE_HOME_FALLBACK'] = '1'
     if c['fb'] in ('flag+env0', 'flag+envyes'):
         env['TRASH_ENABLE_HOME_FALLBACK'] = '0' if c['fb'] == 'flag+env0' else 'yes'      # only the value 1 enables it
     W = scen.base_world(mounts=mounts, env=env, uid=uid, cwd='/home/u/w')
     W.dir('/mnt/v1/w/sub').dir('/mnt/v1/inner/w').dir('/mnt/v2/w').dir('/home/u/xdg')
+    if c['env'] == 'xdg-on-twin':
+        W.dir('/mnt/V1/xdg')
     if c['env'] == 'local-link':
         W.dir('/mnt/v1/ext/local').link('/home/u/.local', '/mnt/v1/ext/local')       # an ANCESTOR of the home trash is a link
     if c['env'] == 'xdg-under-link':
